@@ -190,6 +190,15 @@ def run(chk: Check) -> None:
         chk.distinct.add(t["meta"])
     chk.sample({"layer": rec[0]["meta"], "events": [(e["ev"], e["n"], e["idx"]) for e in rec[0]["events"][:12]]}, cap=6)
     chk.extra["layer_scenarios"] = {"traces": len(rec), "events": res.nevents, "rejected": len(res.rejected)}
+    # the blocking side of the property: receives that end with TimeoutError in the middle of a frame, followed by further receives
+    from . import c03_recv_endpoint
+
+    brec = []
+    for i in range(300 if quick else 4000):
+        brec.append(c03_recv_endpoint.run_sync(chk.seed * 77 + 900000 + i, bool(i % 2)))
+    ntimeouts = sum(1 for t in brec for e in t["events"] if e["ev"] == "ret" and e["kind"] == "timeout")
+    c03_recv_endpoint.validate(chk, brec, "blocking_endpoint_timeouts")
+    chk.extra["blocking_endpoint_timeouts"]["receives_ended_by_TimeoutError"] = ntimeouts
     for idx, pos in sorted(res.rejected.items())[:40]:
         t = rec[idx]
         failing = slim[idx]["events"][pos - 1] if 0 < pos <= len(slim[idx]["events"]) else None
